@@ -104,7 +104,7 @@ def series(rng, m_lo, m_hi, xcls=None, ycls=None):
 
 
 def as_container(rng, a, allow=("array", "list", "int", "strided", "readonly", "series", "tuple", "byteswapped", "reversed_view",
-                                 "array.array")):
+                                 "array.array", "deque")):
     """Return the same values in another container; integer dtype only when values are integral."""
     kind = allow[int(rng.integers(0, len(allow)))]
     a = np.asarray(a, dtype=float)
@@ -133,6 +133,10 @@ def as_container(rng, a, allow=("array", "list", "int", "strided", "readonly", "
     if kind == "reversed_view":
         # a view with a NEGATIVE stride onto storage that holds the values back to front
         return a[::-1].copy()[::-1], kind
+    if kind == "deque":
+        # the rolling window of the last N averages: a sequence with len, indexing and iteration - but no slicing
+        import collections
+        return collections.deque([float(v) for v in a], maxlen=len(a) + 3), kind
     if kind == "array.array":
         import array
         return array.array("d", [float(v) for v in a]), kind
